@@ -77,6 +77,8 @@ tasks:
   t1: {command: ["echo t1 >> $TRACE; exit ${ST_t1:-0}"]}
   t2: {command: ["echo t2 >> $TRACE; exit ${ST_t2:-0}"]}
   t3: {command: ["echo t3 >> $TRACE; exit ${ST_t3:-0}"], allow_failure: true}
+  t4: {command: ["true"], before: ["echo t4 >> $TRACE; exit ${ST_t4:-0}"], allow_failure: true}
+  t5: {command: ["echo t5 >> $TRACE", "if [ ${ST_t5:-0} != 0 ]; then sleep 3; fi"], timeout: 400ms, allow_failure: true}
   p1a: {command: ["echo p1 >> $TRACE"]}
   p1b: {command: ["echo p1 >> $TRACE; exit ${ST_p1:-0}"]}
   p2a: {command: ["echo p2 >> $TRACE; exit ${ST_p2:-0}"]}
@@ -94,9 +96,11 @@ func cliTargetsCase(col *Collector, focus string, dir string, targets []string, 
 	defer os.Remove(trace)
 	env := []string{"TRACE=" + trace}
 	var oks []string
-	for _, n := range []string{"t1", "t2", "t3", "p1", "p2"} {
+	for _, n := range []string{"t1", "t2", "t3", "t4", "t5", "p1", "p2"} {
 		env = append(env, fmt.Sprintf("ST_%s=%d", n, st[n]))
-		ok := st[n] == 0 || n == "t3" // t3 allows failure
+		// t3 allows failure; t4 and t5 allow failure too, but fail in ways allow_failure does not cover
+		// (a failing before hook, a command that overruns the task's timeout)
+		ok := st[n] == 0 || n == "t3"
 		oks = append(oks, fmt.Sprintf("%s:%d", n, map[bool]int{true: 1, false: 0}[ok]))
 	}
 	args := []string{"-c", filepath.Join(dir, "c07.yaml")}
@@ -170,7 +174,7 @@ func runCliTargets(col *Collector, focus, tier string, rng *rand.Rand) {
 	dir := newScratchDir("c07")
 	defer os.RemoveAll(dir)
 	os.WriteFile(filepath.Join(dir, "c07.yaml"), []byte(c07Config), 0644)
-	names := []string{"t1", "t2", "t3", "p1", "p2"}
+	names := []string{"t1", "t2", "t3", "t4", "t5", "p1", "p2"}
 	type job struct {
 		targets []string
 		st      map[string]int
@@ -240,6 +244,13 @@ func runCliTargets(col *Collector, focus, tier string, rng *rand.Rand) {
 		rng.Shuffle(len(jobs), func(a, b int) { jobs[a], jobs[b] = jobs[b], jobs[a] })
 		if len(jobs) > 60 {
 			jobs = jobs[:60]
+		}
+	}
+	// allow_failure covers non-zero exit statuses only: a failing before hook / an overrun still fails the target
+	for _, first := range []string{"t4", "t5"} {
+		for _, form := range []string{"root", "run"} {
+			fixed = append(fixed, job{[]string{first, "t2"}, map[string]int{"t1": 0, "t2": 0, "t3": 0, "t4": 2, "t5": 1, "p1": 0, "p2": 0}, form, nil, nil, nil})
+			fixed = append(fixed, job{[]string{"t3", first, "t1"}, map[string]int{"t1": 0, "t2": 0, "t3": 9, "t4": 2, "t5": 1, "p1": 0, "p2": 0}, form, nil, nil, nil})
 		}
 	}
 	jobs = append(jobs, fixed...)
